@@ -105,6 +105,12 @@
 (*    IndexAgree         GetBySubscriber / GetBySession / GetByType return  *)
 (*                       exactly the stored events (full scan) with that    *)
 (*                       attribute, each once                               *)
+(*                       ("restore" = Store of an id that is already        *)
+(*                       stored - the store is a map keyed by id, the       *)
+(*                       logger keeps an id the caller set: afterwards      *)
+(*                       there is still exactly one event with that id;     *)
+(*                       only in the systems named store-dup, see           *)
+(*                       proposals/audit.json)                              *)
 (*    DeleteEffective    after Delete none of the ids is stored             *)
 (*    Retained           no call loses an event it was not asked to remove  *)
 (* S7 "Count returns the number of stored events" / "Stats returns storage  *)
@@ -126,9 +132,8 @@
 (* Unconstrained: the instant ExpiresAt = now (the harness never produces   *)
 (* it, except for the logger's own SYSTEM_START event, where either answer  *)
 (* is accepted), whether a flush happens before it is due, order of events  *)
-(* with equal timestamps, OrderBy (ignored by the code), storing one id     *)
-(* twice, LogEvent after Stop, Stop without Start, retention of zero days,  *)
-(* exporters that block.                                                    *)
+(* with equal timestamps, OrderBy (ignored by the code), LogEvent after     *)
+(* Stop, Stop without Start, retention of zero days, exporters that block.  *)
 (***************************************************************************)
 EXTENDS Integers, FiniteSets, Sequences, TLC
 
@@ -199,7 +204,7 @@ PastExpiry(cfg, i, day) == cfg.slots[i].hasexp /\ cfg.slots[i].exp <= day
 StoreEdgeClauses(cfg, g, e) ==
   CASE e.op = "q" -> QueryClauses(cfg, g, e)
     [] e.op = "delx" -> IF e.err \/ e.n # Cardinality({i \in g.tab : PastExpiry(cfg, i, g.day)}) THEN {"ExpiredCount"} ELSE {}
-    [] e.op \in {"store", "batch", "del"} -> IF e.op = "store" /\ e.skip THEN {} ELSE IF e.err THEN {"StoredOnce"} ELSE {}
+    [] e.op \in {"store", "restore", "batch", "del"} -> IF e.op \in {"store", "restore"} /\ e.skip THEN {} ELSE IF e.err THEN {"StoredOnce"} ELSE {}
     [] OTHER -> {}
 
 StoreStep(cfg, g, e) ==
